@@ -2,6 +2,7 @@
 //! Crash point = the bytes the destination holds at the moment flush() returns.
 
 use crate::content::Entropy;
+use crate::crypt;
 use crate::families;
 use crate::infra::{self, Meta, Report, Violation, fnv, guard};
 use crate::prog::{self, Cfg, L4, Op, Program};
@@ -26,9 +27,10 @@ impl Case {
 }
 
 /// What must at least be recovered from `prefix` (taken at a flush) in the given mode.
-/// `comp_plain`: for layers both, the plaintext of the encryption layer (the compressed stream),
-/// obtained from the compress-only run of the same program (None if unavailable).
-fn lower_bound(c: &Case, appended: &BTreeMap<String, usize>, prefix_len: usize, unauth: bool, comp_plain: Option<&[u8]>) -> Option<BTreeMap<String, usize>> {
+/// For layers both in authenticated mode the completed chunks of the prefix are decrypted with
+/// the independent AES-GCM implementation and decoded with the reference decoders.
+fn lower_bound(c: &Case, appended: &BTreeMap<String, usize>, prefix: &[u8], unauth: bool) -> Option<BTreeMap<String, usize>> {
+    let prefix_len = prefix.len();
     let l = c.cfg.layers;
     if !l.encrypted() || unauth {
         // every byte appended before the flush
@@ -45,7 +47,11 @@ fn lower_bound(c: &Case, appended: &BTreeMap<String, usize>, prefix_len: usize, 
             Some(c.p.names.iter().enumerate().filter(|(_, n)| appended.contains_key(*n)).map(|(i, n)| (n.clone(), per[i].min(appended[n]))).collect())
         }
         _ => {
-            let plain = comp_plain?;
+            let (key, nonce, hl2) = crypt::params(prefix, 0)?;
+            let (plain, nver) = crypt::decrypt_layer(&prefix[hl2..], &key, &nonce, CHUNK);
+            if nver < full_chunks {
+                return None;
+            }
             let (stream, _) = refdecode::decode_concat(&plain[..usable.min(plain.len())]);
             let files = refdecode::parse_blocks(&stream);
             Some(appended.keys().map(|n| (n.clone(), files.get(n).map(|d| d.len()).unwrap_or(0).min(appended[n]))).collect())
@@ -70,16 +76,6 @@ fn eval(c: &Case, rep: &mut Report) {
     rep.transitions += c.p.ops.len() as u64 + 1;
     let at_flush = c.p.model_at_flushes();
     let model = c.p.model();
-    // compressed stream reference for layers both
-    let comp_plain: Option<Vec<u8>> = if c.cfg.layers == L4::Both {
-        let cc = Cfg { layers: L4::Compress, ..c.cfg };
-        match guard(|| prog::build_unfinalized(&c.p, &cc)) {
-            Ok(Ok((b, _))) => Some(b[refstream::header_len(false, 0)..].to_vec()),
-            _ => None,
-        }
-    } else {
-        None
-    };
     for (k, fl) in flush_lens.iter().enumerate() {
         let prefix = &bytes[..*fl];
         let modes: &[bool] = if c.cfg.layers.encrypted() { &[true, false] } else { &[false] };
@@ -104,7 +100,7 @@ fn eval(c: &Case, rep: &mut Report) {
                         rep.violate(Violation { sig: json!({"kind": format!("unsound_{kind}"), "layers": lt, "mode": mode}), detail: d, replay, weight });
                         continue;
                     }
-                    let Some(need) = lower_bound(c, appended, *fl, unauth, comp_plain.as_deref()) else {
+                    let Some(need) = lower_bound(c, appended, prefix, unauth) else {
                         rep.count("lower_bound_reference_unavailable", 1);
                         continue;
                     };
@@ -206,7 +202,7 @@ pub fn run(started: Instant) -> i32 {
             rule: "each program containing flush() calls is run on the real writer over a sink that records its length when flush returns; the bytes held at that moment are given to the real repair (both modes when encrypted); oracle: repair output is sound and every file has at least the bytes appended before the flush (unauthenticated / no encryption) or at least the bytes decodable from completed encryption chunks by reference decoders (authenticated). non-trivial = distinct (program, configuration, flush, mode) with at least one byte appended before the flush".to_string(),
             exhaustive: true,
             bounds,
-            assumptions: vec!["scaled layer constants (cfg mla_verif)".to_string(), "for layers both in authenticated mode the reference compressed stream is taken from the compress-only run of the same program (same call sequence into the compression layer)".to_string()],
+            assumptions: vec!["scaled layer constants (cfg mla_verif)".to_string()],
         },
         started,
     )
